@@ -278,6 +278,11 @@ def red(fname, elems):
         return max_(*elems)
     if fname == 'ptp':
         return sub(max_(*elems), min_(*elems))
+    if fname == 'sum':
+        acc = ('num', Fr(0))
+        for e in elems:
+            acc = add(acc, e)
+        return acc
     if fname == 'mean' and elems:
         acc = ('num', Fr(0))
         for e in elems:
